@@ -90,7 +90,8 @@ fn ci4(t: &[u8; 4], m: &[u8; 4]) -> bool {
     lower(t[0]) == m[0] && lower(t[1]) == m[1] && lower(t[2]) == m[2] && lower(t[3]) == m[3]
 }
 
-// @harness props=C24 tier=quick mem=6 t=2400 stubs="S6"
+// DISABLED, out of reach.  MEASURED: 3734 loop unwindings (140 s of symbolic execution), then CBMC out of memory at 10.5 GB while converting the equation.  c24_type_null covers the NULL mnemonic in every case mix at unwind 12.
+// @disabled-harness props=C24 tier=quick mem=6 t=2400 stubs="S6"
 //   fn="Parser::parse_type,Reader::read_field,<Type as FromStr>::from_str"
 //   bound="type field of 4 symbolic octets (2^32) followed by a newline: whatever is accepted is not NULL/OPT/TSIG; NULL, TSIG (any case) and OPT + field end are rejected with their own error kinds; unwind 22 (20 mnemonics)"
 //   sym="token:[u8;4]"
@@ -158,7 +159,8 @@ fn c24_type_null() {
     core::mem::forget(p);
 }
 
-// @harness props=C24,C23 tier=thorough mem=8 t=3600 stubs="S6"
+// DISABLED, out of reach.  NOT MEASURED to completion: same loop structure as c24_type_token4 (all 20 mnemonics are tried before the TYPEnnn form, unwind 22).  Natively, TYPE10 / TYPE041 / TYPE250 are rejected as NULL / OPT / TSIG (checked with a unit test in a scratch copy).
+// @disabled-harness props=C24,C23 tier=thorough mem=8 t=3600 stubs="S6"
 //   fn="Parser::parse_type,Reader::read_field,<Type as FromStr>::from_str"
 //   bound="RFC 3597 type field TYPE + 3 symbolic decimal digits + newline: accepted with the numeric value unless that value is 10, 41 or 250 (NULL, OPT, TSIG under their generic names); unwind 22"
 //   sym="3 digits"
@@ -272,10 +274,17 @@ fn totality<const N: usize>() {
 //    25 min of symbolic execution;
 //  * 64-octet buffer, every RDATA parser reachable: out of memory at 10.5 GB
 //    after 833 loop unwindings;
-//  * 64-octet buffer, parse_rdata replaced by an asserted-unreachable stub:
-//    the harnesses below.
+//  * 64-octet buffer, parse_rdata replaced by an asserted-unreachable stub
+//    (the harnesses below): out of memory at 7.6 GB after 479 loop
+//    unwindings.
+// Reason: every `io::Result<Option<u8>>` the reader hands back loses its
+// constants in CBMC, so all of the parser (name builder, integer, class and
+// type parsers, directive parsers) is explored on every path and every loop
+// runs to the unwind bound although a 1-octet input can reach almost none of
+// it.  The harnesses are kept, disabled.
 
-// @harness props=C24 tier=quick mem=6 t=3600 stubs="S6,rdata_unreachable"
+// DISABLED, out of reach.  MEASURED: out of memory at 7.6 GB after 479 loop unwindings (parse_rdata cut off); see the table above.
+// @disabled-harness props=C24 tier=quick mem=6 t=3600 stubs="S6,rdata_unreachable"
 //   fn="Parser::next,Parser::parse_line,Parser::parse_record_or_empty,Parser::parse_directive,Parser::parse_name,Parser::parse_ttl_and_class,Parser::parse_type,Reader::*"
 //   bound="every input of exactly 1 octet (all 256) through the parser with a 64-octet initial buffer, iterated until None or 3 items; parse_rdata asserted unreachable; unwind 4"
 //   sym="data:[u8;1]"
@@ -287,7 +296,8 @@ fn c24_total_len1() {
     totality::<1>();
 }
 
-// @harness props=C24 tier=thorough mem=8 t=7200 stubs="S6,rdata_unreachable"
+// DISABLED, out of reach.  NOT RUN: the 1-octet instance above is already out of reach.
+// @disabled-harness props=C24 tier=thorough mem=8 t=7200 stubs="S6,rdata_unreachable"
 //   fn="Parser::next,Parser::parse_line,Parser::parse_record_or_empty,Parser::parse_directive,Parser::parse_name,Parser::parse_ttl_and_class,Parser::parse_type,Reader::*"
 //   bound="every input of exactly 2 octets through the parser with a 64-octet initial buffer, iterated until None or 3 items; parse_rdata asserted unreachable; unwind 5"
 //   sym="data:[u8;2]"
@@ -313,7 +323,8 @@ fn ttl_class_outcome<S: Read>(p: &mut Parser<S>) -> Option<(u32, u16, usize)> {
     }
 }
 
-// @harness props=C23 tier=quick mem=6 t=2400 stubs="S6"
+// DISABLED, out of reach.  MEASURED: 2092 loop unwindings (~40 min of symbolic execution under load), then CBMC out of memory at 10.1 GB.
+// @disabled-harness props=C23 tier=quick mem=6 t=2400 stubs="S6"
 //   fn="Parser::parse_ttl_and_class,Parser::parse_ttl,Parser::parse_class,Reader::read_field,Reader::skip_to_next_field,<Class as FromStr>::from_str"
 //   bound="fields 'D IN A' and 'IN D A' (D one symbolic decimal digit, LF at the end), empty context: TTL D, class IN, exactly the two fields consumed (column 5); unwind 8"
 //   sym="one digit"
@@ -333,7 +344,8 @@ fn c23_ttl_class_both_orders() {
     core::mem::forget((p1, p2));
 }
 
-// @harness props=C23 tier=quick mem=6 t=2400 stubs="S6"
+// DISABLED, out of reach.  MEASURED: 1931 loop unwindings, then CBMC out of memory at 8.9 GB.
+// @disabled-harness props=C23 tier=quick mem=6 t=2400 stubs="S6"
 //   fn="Parser::parse_ttl_and_class,Parser::default_or_previous_ttl"
 //   bound="omitted fields: 'CH A' with $TTL default T1 and previous TTL T2 (both symbolic u32) -> TTL T1, class CH; 'A' with no $TTL, previous TTL T2 and previous class HS -> T2, HS; 'A' with an empty context -> error; unwind 8"
 //   sym="two u32 TTLs"
